@@ -99,8 +99,27 @@ def all_fields(body, prog=None):
             continue
         import json as _json
 
+        # locals that are the same value as `self`: plain copies / reborrows of _1 (what binding a helper's parameter leaves behind)
+        alias = {1}
+        changed = True
+        while changed:
+            changed = False
+            for blk in b.blocks:
+                for st in blk["stmts"]:
+                    if st["k"] != "assign" or st["lhs"]["p"] or st["lhs"]["l"] in alias:
+                        continue
+                    rv = st["rv"]
+                    src = None
+                    if rv["k"] in ("use", "cast"):
+                        src = op_place(rv["op"])
+                    elif rv["k"] in ("ref", "rawptr"):
+                        src = rv["place"]
+                    if src is not None and src["l"] in alias and all(x == "*" for x in src["p"]) and len(b.defs().get(st["lhs"]["l"], [])) == 1:
+                        alias.add(st["lhs"]["l"])
+                        changed = True
+
         def scan(pl):
-            if isinstance(pl, dict) and pl.get("l") == 1 and isinstance(pl.get("p"), list):
+            if isinstance(pl, dict) and pl.get("l") in alias and isinstance(pl.get("p"), list):
                 for pr in pl["p"]:
                     if isinstance(pr, dict) and "n" in pr:
                         out.add(pr["n"])
